@@ -261,15 +261,22 @@ class P2WSHSortedMulti:
         # Fix strange slashes that some software (Specter-Desktop) may export
         output_record = output_record.strip().replace(r"\/", "/")
 
-        # Regex match the string
+        # Regex match the string: the descriptor ends the text...
         re_output_results = re.match(
             r".*wsh\(sortedmulti\(([0-9]*),(.*)\)\)(\#[qpzry9x8gf2tvdw0s3jn54khce6mua7l]{8})?\s*$",
             output_record,
         )
         if re_output_results is None:
+            # ...or it is a quoted value inside a JSON account map (Specter-Desktop)
+            re_output_results = re.match(
+                r".*[\"']wsh\(sortedmulti\(([0-9]*),(.*)\)\)(\#[qpzry9x8gf2tvdw0s3jn54khce6mua7l]{8})?[\"']\s*([,}\]].*)?$",
+                output_record,
+                re.S,
+            )
+        if re_output_results is None:
             raise ValueError(f"Not a valid wsh sortedmulti: {output_record}")
 
-        quorum_m_str, key_records_str, checksum = re_output_results.groups()
+        quorum_m_str, key_records_str, checksum = re_output_results.groups()[:3]
 
         if "#" in output_record:
             if checksum:
